@@ -24,16 +24,16 @@ mut("M10-consumebykey-no-equal", ["C09"], "log_reader.go", "\t\tif bytes.Equal(k
 mut("M11-time-search-gt", ["C10"], "pkg/index/times.go", "return items[midIndex].Timestamp >= ts", "return items[midIndex].Timestamp > ts", "sort.Search predicate > instead of >=")
 mut("M12-getbytime-oldest-first", ["C10", "C15"], "log.go", "\t\tcase index.ErrTimeBeforeStart:\n\t\t\t// not in this segment, try the rest\n\t\t\tif i == 0 {\n\t\t\t\treturn rdr.Get(message.OffsetOldest)\n\t\t\t}", "\t\tcase index.ErrTimeBeforeStart:\n\t\t\t// not in this segment, try the rest\n\t\t\tif i <= 1 {\n\t\t\t\treturn rdr.Get(message.OffsetOldest)\n\t\t\t}", "GetByTime stops one segment early when the time is before a segment's start")
 mut("M13-rewrite-src-positions", ["C11", "C01", "C12"], "pkg/segment/segment.go", "\t\t\titem := params.NewItem(msg, dstPosition, indexTime)\n\t\t\tdstIndex = append(dstIndex, item)", "\t\t\titem := params.NewItem(msg, dstPosition, indexTime)\n\t\t\tif srcVersion != mversion {\n\t\t\t\titem.Position = srcPosition\n\t\t\t}\n\t\t\tdstIndex = append(dstIndex, item)", "Rewrite into another version writes source positions into the new index")
-mut("M14-migrate-keeps-index-ts", ["C11", "C17"], "pkg/segment/segment.go", "\t\titem := params.NewItem(msg, migratedPosition, indexTime)\n\t\tmigratedIndex = append(migratedIndex, item)", "\t\titem := params.NewItem(msg, oldPosition, indexTime)\n\t\tmigratedIndex = append(migratedIndex, item)", "Migrate writes the old positions into the migrated index")
-mut("M15-deletedsize-target-version", ["C12"], "pkg/segment/segment.go", "dst.DeletedSize += message.Size(msg, srcVersion) + params.Size()", "dst.DeletedSize += message.Size(msg, mversion) + params.Size()", "DeletedSize computed in the target version")
+mut("M14-migrate-keeps-index-ts", ["C11", "C17"], "pkg/segment/segment.go", "\t\titem := params.NewItem(msg, migratedPosition, indexTime)\n\t\tmigratedIndex = append(migratedIndex, item)", "\t\titem := params.NewItem(msg, migratedPosition, indexTime)\n\t\titem.Position = oldPosition\n\t\tmigratedIndex = append(migratedIndex, item)", "Migrate writes the old positions into the migrated index")
+mut("M15-deletedsize-target-version", ["C12"], "pkg/segment/segment.go", "dst.DeletedSize += message.Size(msg, srcVersion) + params.Size()", "dst.DeletedSize += message.Size(msg, mversion) + params.Size()\n\t\t\t_ = srcVersion", "DeletedSize computed in the target version")
 mut("M16-deletemulti-stops-early", ["C12", "C15"], "delete.go", "\t\tdeletedMessages = append(deletedMessages, deleted...)\n\t\tdeletedSize += size\n\t\tfor _, msg := range deleted {\n\t\t\tdelete(remainingOffsets, msg.Offset)\n\t\t}\n", "\t\tdeletedMessages = append(deletedMessages, deleted...)\n\t\tdeletedSize += size\n\t\tfor _, msg := range deleted {\n\t\t\tdelete(remainingOffsets, msg.Offset)\n\t\t}\n\t\tif len(deletedMessages) >= 5 {\n\t\t\treturn deletedMessages, deletedSize, nil\n\t\t}\n", "DeleteMulti gives up after 5 messages")
 mut("M17-v2-swap-fields", ["C13"], "pkg/message/format.go", None, None, "V2 encoder and decoder both swap offset and time fields (symmetric: round-trip tests stay green)")
-mut("M18-stat-wrong-item-size", ["C13", "C15"], "pkg/index/format.go", "return dataSize, int((dataSize - HeaderSize) / opts.Size()), nil", "return dataSize, int((dataSize - HeaderSize + 8) / opts.Size()), nil", "index.Stat rounds the V2 message count wrongly for 16-byte items")
+mut("M18-stat-wrong-item-size", ["C13", "C15"], "pkg/index/format.go", "return dataSize, int((dataSize - HeaderSize) / opts.Size()), nil", "return dataSize, int((dataSize - HeaderSize) / 16), nil", "index.Stat counts V2 index items as if they were 16 bytes in every layout")
 mut("M19-skip-crc-when-trailer-ok", ["C14", "C07"], "pkg/message/format.go", "\tif expectedCRC != actualCRC {\n\t\treturn -1, errCrcFailed\n\t}\n\n\t// Verify trailer", "\tif expectedCRC != actualCRC && !bytes.Equal(payload[headerPayloadSize+int(keySize)+int(valueSize):], trailerMagicData) {\n\t\treturn -1, errCrcFailed\n\t}\n\n\t// Verify trailer", "V2 reader accepts a bad CRC when the trailer matches")
 mut("M20-no-length-bound", ["C14", "C07", "C13"], "pkg/message/format.go", "\tif int(keySize)+int(valueSize) > maxMessageBodySize {\n\t\treturn -1, errInvalidHeader\n\t}\n\tposition += v2HeaderSize", "\tposition += v2HeaderSize", "V2 reader without the 64 MiB bound")
 mut("M21-count-off-by-one", ["C15"], "trim_count.go", "toRemove := stats.Messages - max", "toRemove := stats.Messages - max + 1", "FindByCount removes one too many")
 mut("M22-size-loop-le", ["C15"], "trim_size.go", "\t\t\tif total < sz {\n\t\t\t\tbreak\n\t\t\t}", "\t\t\tif total <= sz {\n\t\t\t\tbreak\n\t\t\t}", "FindBySize stops at <= instead of <")
-mut("M23-findupdates-marks-later", ["C16"], "compact_updates.go", "offsets[prevMsgOffset.(int64)] = struct{}{}", "offsets[msg.Offset] = struct{}{}", "FindUpdates marks the later message")
+mut("M23-findupdates-marks-later", ["C16"], "compact_updates.go", "offsets[prevMsgOffset.(int64)] = struct{}{}", "_ = prevMsgOffset\n\t\t\t\toffsets[msg.Offset] = struct{}{}", "FindUpdates marks the later message")
 mut("M24-finddeletes-ignores-seen", ["C16"], "compact_deletes.go", "\t\t\tif _, ok := keyOffset.Search(msg.Key); ok {\n\t\t\t\tcontinue\n\t\t\t}", "\t\t\tif _, ok := keyOffset.Search(msg.Key); ok && msg.Value != nil {\n\t\t\t\tcontinue\n\t\t\t}", "FindDeletes ignores 'seen before' for tombstones")
 mut("M25-rewrite-ignores-keep", ["C17"], "log.go", "\tif l.opts.Version.KeepRewriteVersion {\n\t\tvar detected message.Version", "\tif l.opts.Version.KeepRewriteVersion && !l.opts.KeyIndex {\n\t\tvar detected message.Version", "KeepRewriteVersion ignored on key-indexed logs")
 mut("M26-eager-skips-head", ["C17"], "log.go", "\t\t\tfor _, seg := range segments {\n\t\t\t\tif err := seg.Migrate(", "\t\t\tfor _, seg := range segments[:len(segments)-1] {\n\t\t\t\tif err := seg.Migrate(", "eager migration skips the head segment")
@@ -91,7 +91,9 @@ def main():
             if rc != 0:
                 print("%s: does not build\n%s" % (m["id"], out[-600:])); continue
             src, sout = sh(["go1.26.8", "test", "-count=1", "./..."], cwd=WT, timeout=3000)
-            suite = "suite-green" if src == 0 else "suite-RED"
+            fails = [l.strip() for l in sout.splitlines() if l.strip().startswith("--- FAIL:")]
+            real = [f for f in fails if "TestConcurrent" not in f]
+            suite = "suite-green" if (src == 0 or (fails and not real)) else "suite-RED(%s)" % ",".join(sorted({f.split()[2].split("/")[0] for f in real}))[:40]
             res = {}
             for pid in m["props"]:
                 env = dict(os.environ, VF_REPO=WT, VF_EVIDENCE_DIR="/dev/shm/mut-evidence", VF_REPLAY_DIR="/dev/shm/mut-replays")
